@@ -189,8 +189,33 @@ class Ctx:
         self.models.append({'module': module, 'cfg': cfg, 'expected_violation': what, 'wall_s': round(r.wall, 1)})
         return r
 
-    def validate(self, module, tracefile, cfg=None, env=None, **kw):
-        """Trace validation run.  Returns TLCResult; TLC failure => Inconclusive."""
+    def validate(self, module, tracefile, cfg=None, env=None, chunk=2500, **kw):
+        """Trace validation run.  Returns TLCResult; TLC failure => Inconclusive.  A file with more than `chunk` traces is
+        validated in pieces (one JVM each): the Json module holds a whole file in memory, and the thorough tiers record
+        tens of thousands of traces."""
+        with open(tracefile) as f:
+            nlines = sum(1 for _ in f)
+        if nlines > chunk:
+            outs, wall, k = [], 0.0, 0
+            with open(tracefile) as f:
+                part = []
+                def flush():
+                    nonlocal part, k, wall
+                    if not part:
+                        return
+                    p = '%s.part%d' % (tracefile, k)
+                    with open(p, 'w') as pf:
+                        pf.writelines(part)
+                    r = self.validate(module, p, cfg=cfg, env=env, chunk=10 ** 9, **kw)
+                    outs.append(r.out); wall += r.wall
+                    os.remove(p)
+                    part, k = [], k + 1
+                for ln in f:
+                    part.append(ln)
+                    if len(part) >= chunk:
+                        flush()
+                flush()
+            return TLCResult(0, '\n'.join(outs), wall)
         e = {'VERIF_TRACE': tracefile}
         if env:
             e.update(env)
@@ -273,6 +298,25 @@ class Ctx:
         if self.inconclusive:
             return 2
         return 0
+
+
+def run_proc(cmd, cwd, timeout, env=None):
+    """subprocess.run for a harness process that may hang because the code under test has dead-locked: on timeout the
+    process gets SIGQUIT (a Go program then dumps every goroutine's stack) and is reaped; returns
+    (returncode, stdout, stderr, hung)."""
+    import signal
+    p = subprocess.Popen(cmd, cwd=cwd, env=env, stdout=subprocess.PIPE, stderr=subprocess.PIPE, text=True)
+    try:
+        out, err = p.communicate(timeout=timeout)
+        return p.returncode, out, err, False
+    except subprocess.TimeoutExpired:
+        p.send_signal(signal.SIGQUIT)
+        try:
+            out, err = p.communicate(timeout=30)
+        except subprocess.TimeoutExpired:
+            p.kill()
+            out, err = p.communicate()
+        return (p.returncode if p.returncode else 2), out, 'fatal error: harness process hung (SIGQUIT after %ds)\n' % timeout + err, True
 
 
 def load_known(prop):
